@@ -90,21 +90,24 @@ type evmAcct struct {
 }
 
 type evmWorld struct {
-	c        *Chain
-	env      *Env
-	rng      *RNG
-	hist     []string
-	accts    []*evmAcct // index = id
-	byAddr   map[common.Address]*evmAcct
-	fc       sdk.AccAddress
-	mult     sdk.Dec
-	minPrice sdk.Dec
-	maxGas   int64
-	gwIsCtr  bool
-	directed bool
-	pabi     abi.ABI
-	lzNonce  uint64
-	digKeys  []string
+	c           *Chain
+	env         *Env
+	rng         *RNG
+	hist        []string
+	accts       []*evmAcct // index = id
+	byAddr      map[common.Address]*evmAcct
+	fc          sdk.AccAddress
+	mult        sdk.Dec
+	minPrice    sdk.Dec
+	maxGas      int64
+	gwIsCtr     bool
+	directed    bool
+	pabi        abi.ABI
+	lzNonce     uint64
+	digKeys     []string
+	ref         *refEVM // reference execution world (evmref.go); nil = off
+	refOff      bool    // reference switched off for the rest of the history
+	refStateOff bool    // code/storage already differ from the reference in this history (reported once)
 }
 
 func (w *evmWorld) op(op, obs string) {
@@ -241,10 +244,12 @@ type txResult struct {
 func (w *evmWorld) deliver(from *evmAcct, recip *evmAcct, s EthTxSpec, tag string) (r txResult) {
 	c := w.c
 	env := w.env
-	pre, ok := w.preExecute(from, s)
-	if !ok {
+	// when the pre-execution itself breaks down (a panic inside keeper.ApplyMessage) the tx is still delivered and
+	// judged by the monitors; only the Lean model, which needs the EVM result as an input, is not fed (it is
+	// re-synchronised by a block boundary right after the tx)
+	pre, modelled := w.preExecute(from, s)
+	if !modelled {
 		env.Note("preexec-skipped")
-		return txResult{class: "skipped"}
 	}
 	var bz []byte
 	var err error
@@ -277,6 +282,22 @@ func (w *evmWorld) deliver(from *evmAcct, recip *evmAcct, s EthTxSpec, tag strin
 	digB := w.digest()
 	baseFee := w.baseFee()
 	price := effPrice(s.Type, s.FeeCap, tip, baseFee)
+
+	// reference execution of the same message (evmref.go), on the pre-state the ante handler leaves
+	var rr refResult
+	refRan := false
+	if w.ref != nil && !w.refOff && evmRefApplies(tag) && sigOk && s.FeeCap.Sign() >= 0 {
+		fee := new(big.Int).Mul(price, new(big.Int).SetUint64(s.GasLimit))
+		if w.refSync(balB, seqB, map[int]*big.Int{from.id: fee}, map[int]uint64{from.id: 1}) {
+			w.ref.begin()
+			var rerr error
+			if rr, rerr = w.ref.exec(c, from.addr, s, baseFee); rerr == nil {
+				refRan = true
+			} else {
+				env.Note("ref-error")
+			}
+		}
+	}
 
 	res, halt := c.DeliverRawTx(bz)
 	if halt != "" {
@@ -336,7 +357,15 @@ func (w *evmWorld) deliver(from *evmAcct, recip *evmAcct, s EthTxSpec, tag strin
 	for i := range balA {
 		bs[i] = balA[i].String()
 	}
-	w.op(opLine, fmt.Sprintf("%s g=%d n=%d b=%s", r.class, r.gas, seqA[from.id], strings.Join(bs, ",")))
+	if modelled {
+		w.op(opLine, fmt.Sprintf("%s g=%d n=%d b=%s", r.class, r.gas, seqA[from.id], strings.Join(bs, ",")))
+	} else {
+		w.hist = append(w.hist, "unmodelled:"+opLine)
+		defer w.nextBlock(time.Second)
+	}
+	if w.ref != nil {
+		w.ref.settle(r.class == "ok" || r.class == "vmfail")
+	}
 	env.Outcome(r.class)
 	env.Outcome(fmt.Sprintf("type%d", s.Type))
 	env.Outcome("kind:" + tag + ":" + r.class)
@@ -404,11 +433,11 @@ func (w *evmWorld) deliver(from *evmAcct, recip *evmAcct, s EthTxSpec, tag strin
 			reason = "gas>blocklimit"
 		case strings.Contains(res.Log, "no block gas left"):
 			reason = "blockgas-exhausted"
-		case !w.minPrice.IsZero():
-			reason = "mingasprice"
+		case !w.minPrice.IsZero() && sdk.NewDecFromBigInt(fee).LT(w.minPrice.Mul(sdk.NewDecFromBigInt(lim))):
+			reason = "mingasprice" // EthMinGasPriceDecorator: effective fee < MinGasPrice x gas limit
 		}
 		if reason == "" {
-			env.Violate("C19.rejected-free", "spurious-reject", "tx rejected although every admission check passes: "+res.Log, w.hist)
+			env.Violate("C19.rejected-free", "spurious-reject", "tx rejected although every admission check passes: "+evmFirstLine(res.Log), w.hist)
 		}
 		env.Outcome("rej:" + reason)
 	}
@@ -474,6 +503,11 @@ func (w *evmWorld) deliver(from *evmAcct, recip *evmAcct, s EthTxSpec, tag strin
 	} else if !r.digestEq {
 		env.Outcome("ok-state-changed")
 	}
+	// reference: executed / failed / gas used as on go-ethereum's own state, code and storage afterwards
+	if refRan && (r.class == "ok" || r.class == "vmfail" || r.class == "apperr") {
+		w.refCheckExec(rr, r.class, r.gas, s, "")
+	}
+	w.refCheckState(r.class)
 	if included {
 		env.DistinctKey(fmt.Sprintf("%s/%d/%s/%d/%s", r.class, s.Type, tag, s.GasLimit, s.Value))
 	}
@@ -542,8 +576,37 @@ func newEvmWorld(env *Env, rng *RNG, seed uint64, mult, minPrice sdk.Dec, baseFe
 	}
 	old := exocoreapp.DefaultConsensusParams.Block.MaxGas
 	exocoreapp.DefaultConsensusParams.Block.MaxGas = maxGas
-	c := NewChain(cfg)
+	c, perr := evmNewChainGuarded(cfg)
+	if perr != "" {
+		// The default genesis cannot be initialised (dogfood's InitGenesis registers its AVS through
+		// evmKeeper.SetAccount on an address that has no account yet). C19 is about transactions, so the chain is
+		// booted from a genesis in which that account already exists and the transactions are judged there.
+		env.Note("initchain-panic:fallback-genesis")
+		mut := cfg.Mutate
+		cfg.Mutate = func(c *Chain, gs map[string]json.RawMessage) {
+			mut(c, gs)
+			cdc := c.App.AppCodec()
+			var ag authtypes.GenesisState
+			cdc.MustUnmarshalJSON(gs[authtypes.ModuleName], &ag)
+			accs, err := authtypes.UnpackAccounts(ag.Accounts)
+			if err != nil {
+				panic(err)
+			}
+			avs := common.HexToAddress(c.AVSAddr)
+			accs = append(accs, &evmostypes.EthAccount{BaseAccount: authtypes.NewBaseAccount(avs.Bytes(), nil, uint64(len(accs)), 0), CodeHash: common.BytesToHash(crypto.Keccak256(nil)).Hex()})
+			packed, err := authtypes.PackAccounts(accs)
+			if err != nil {
+				panic(err)
+			}
+			ag.Accounts = packed
+			gs[authtypes.ModuleName] = cdc.MustMarshalJSON(&ag)
+		}
+		c, perr = evmNewChainGuarded(cfg)
+	}
 	exocoreapp.DefaultConsensusParams.Block.MaxGas = old
+	if perr != "" {
+		return nil, fmt.Errorf("InitChain panics: %s", perr)
+	}
 	w.c = c
 	w.fc = c.App.AccountKeeper.GetModuleAddress(authtypes.FeeCollectorName)
 	w.digKeys = []string{"evm", "assets", "delegation", "operator", "dogfood", "avs", "oracle", "feedistribution", "erc20"}
@@ -571,49 +634,74 @@ func newEvmWorld(env *Env, rng *RNG, seed uint64, mult, minPrice sdk.Dec, baseFe
 		w.add(fmt.Sprintf("eoa%d", i), a.Eth, &ac)
 	}
 	w.add("sink", common.HexToAddress("0x00000000000000000000000000000000000051ee"), nil)
-	// contracts, deployed through real transactions of `funded` (nonces 0..6)
+	// contracts, deployed through real transactions of `funded` (nonces 0..7). The deployments are part of the
+	// monitored and modelled history: a creation that is refused, fails, is mis-charged or leaves no code is judged by
+	// the same monitors as every later tx (and the history stops there instead of the run breaking down).
 	price := new(big.Int).Mul(bf, big.NewInt(4))
 	if price.Sign() == 0 {
 		price = big.NewInt(1)
 	}
-	for i, rt := range [][]byte{rtRevert, rtInvalid, rtLoop, rtStop, rtStore, rtLog, rtGateway} {
-		name := []string{"cRevert", "cInvalid", "cLoop", "cStop", "cStore", "cLog", "cGateway"}[i]
-		spec := EthTxSpec{Type: 0, Nonce: uint64(i), GasLimit: 150000, FeeCap: price, Value: new(big.Int), Data: initCodeFor(rt), Sign: true}
-		_, bz, err := c.BuildEthTx(f, spec)
-		if err != nil {
-			return nil, err
-		}
-		res, halt := c.DeliverRawTx(bz)
-		if halt != "" || res.Code != 0 {
-			return nil, fmt.Errorf("deploy %s: code %d %s %s", name, res.Code, res.Log, halt)
-		}
-		er, err := c.EthResponse(res)
-		if err != nil || er.Failed() {
-			return nil, fmt.Errorf("deploy %s failed: %v", name, er)
-		}
-		addr := crypto.CreateAddress(f.Eth, uint64(i))
-		acct := c.App.EvmKeeper.GetAccount(c.Ctx, addr)
-		if acct == nil {
-			return nil, fmt.Errorf("deploy %s: no account", name)
-		}
-		if code := c.App.EvmKeeper.GetCode(c.Ctx, common.BytesToHash(acct.CodeHash)); len(code) != len(rt) {
-			return nil, fmt.Errorf("deploy %s: code length %d", name, len(code))
-		}
-		w.add(name, addr, nil)
-		if maxGas > 0 {
-			if r := c.EndAndBegin(time.Second); r.Halt != "" {
-				return nil, fmt.Errorf("halt: %s", r.Halt)
-			}
-		}
+	rts := [][]byte{rtRevert, rtInvalid, rtLoop, rtStop, rtStore, rtLog, rtGateway, rtBranch}
+	names := []string{"cRevert", "cInvalid", "cLoop", "cStop", "cStore", "cLog", "cGateway", "cBranch"}
+	for i := range rts {
+		w.add(names[i], crypto.CreateAddress(f.Eth, uint64(i)), nil)
 	}
 	if gwIsContract && w.byName("cGateway").addr != gwAddr {
 		return nil, fmt.Errorf("gateway address mismatch")
+	}
+	if env.Int("ref", 1) != 0 {
+		if w.ref, err = newRefEVM(); err != nil {
+			return nil, err
+		}
 	}
 	w.op("evm.reset", "ok")
 	if !w.nextBlock(time.Second) {
 		return nil, fmt.Errorf("halt")
 	}
+	for i, rt := range rts {
+		name := names[i]
+		nv := len(env.Report.Violations)
+		spec := EthTxSpec{Type: 0, Nonce: uint64(i), GasLimit: 150000, FeeCap: price, Value: new(big.Int), Data: initCodeFor(rt), Sign: true}
+		r := w.deliver(w.byName("funded"), w.byName(name), spec, "setup:create:"+name)
+		bad := ""
+		if r.class != "ok" {
+			bad = fmt.Sprintf("deploy %s: %s %s %s", name, r.class, r.vmErr, r.log)
+		} else if code, _ := chainContract(c, w.byName(name).addr); len(code) != len(rt) {
+			bad = fmt.Sprintf("deploy %s: code length %d, want %d", name, len(code), len(rt))
+		}
+		if bad != "" {
+			if len(env.Report.Violations) > nv {
+				return nil, errEvmSetupViolated // reported with its history by a monitor
+			}
+			return nil, fmt.Errorf("%s", bad)
+		}
+		if maxGas > 0 && !w.nextBlock(time.Second) {
+			return nil, fmt.Errorf("halt")
+		}
+	}
+	if !w.nextBlock(time.Second) {
+		return nil, fmt.Errorf("halt")
+	}
 	return w, nil
+}
+
+// errEvmSetupViolated: a deployment of the helper contracts already violated the property (the violation, with its
+// history, is in the report); the history ends there.
+var errEvmSetupViolated = fmt.Errorf("setup violated")
+
+func evmFirstLine(s string) string {
+	if i := strings.IndexByte(s, '\n'); i >= 0 {
+		s = s[:i]
+	}
+	if len(s) > 240 {
+		s = s[:240]
+	}
+	return s
+}
+
+func evmNewChainGuarded(cfg ChainCfg) (c *Chain, perr string) {
+	defer recoverTo(&perr, "InitChain")
+	return NewChain(cfg), ""
 }
 
 func (w *evmWorld) byName(n string) *evmAcct {
